@@ -597,10 +597,27 @@ def _floor_real(e):
 _INF = float('inf')
 
 
+_IB_CACHE = {}
+
+
 def _ibounds(e, depth=0):
     """cheap interval of a z3 Int term from the declared bounds of the
-    symbolic inputs: (lo, hi) with +-inf for unknown"""
-    if depth > 40:
+    symbolic inputs: (lo, hi) with +-inf for unknown (memoised per term:
+    shared sub-terms of if-then-else chains would otherwise be revisited
+    exponentially often)"""
+    key = (id(CUR), e.get_id())
+    hit = _IB_CACHE.get(key)
+    if hit is not None and hit[0].eq(e):
+        return hit[1]
+    r = _ibounds0(e, depth)
+    if len(_IB_CACHE) > 200000:
+        _IB_CACHE.clear()
+    _IB_CACHE[key] = (e, r)
+    return r
+
+
+def _ibounds0(e, depth=0):
+    if depth > 60:
         return -_INF, _INF
     if z3.is_int_value(e):
         v = e.as_long()
